@@ -59,7 +59,13 @@ pub fn abs_req(req: &PresentationRequest) -> Value {
         })
         .collect();
     preds.sort_by(|a, b| a[0].as_str().cmp(&b[0].as_str()));
-    json!({"nonce": r.nonce.to_string(), "attrs": attrs, "preds": preds, "non_revoked": ivl(&r.non_revoked)})
+    // the nonce is compared as a number (`Nonce::as_native`): canonical decimal form on the wire
+    let nonce = {
+        let s = r.nonce.to_string();
+        let t = s.trim_start_matches('0');
+        if t.is_empty() { "0".to_string() } else { t.to_string() }
+    };
+    json!({"nonce": nonce, "attrs": attrs, "preds": preds, "non_revoked": ivl(&r.non_revoked)})
 }
 
 /// accumulator equivalence classes: affine bytes → small id
